@@ -71,6 +71,19 @@ theorem varIndex_complete (pat cap rest : List Tok) (h : GMatch pat cap rest) :
       rw [← hrem, htw, List.drop_left, ih (i + run.length)]
       simp; omega
 
+/-- **the capture of a variable is unique**: a request has at most one greedy instance of a
+sub-pattern in front of it — what a variable captures is determined by the request alone. -/
+theorem greedy_instance_unique (pat cap1 rest1 cap2 rest2 : List Tok)
+    (h1 : GMatch pat cap1 rest1) (h2 : GMatch pat cap2 rest2) (he : cap1 ++ rest1 = cap2 ++ rest2) :
+    cap1 = cap2 ∧ rest1 = rest2 := by
+  have e1 := varIndex_complete pat cap1 rest1 h1 0
+  have e2 := varIndex_complete pat cap2 rest2 h2 0
+  rw [he, e2] at e1
+  have hl : cap1.length = cap2.length := by
+    injection e1 with e1; injection e1 with e1; omega
+  have := List.append_inj he hl
+  exact this
+
 /-- the request tokens instantiate the binding's edges — declaratively. -/
 inductive EdgeInst : List Edge → List Tok → Prop
   | nil (toks : List Tok) : toks.length ≤ 1 → EdgeInst [] toks
